@@ -288,7 +288,10 @@ class AppNamespace(object):
             if not row["claimed"]:
                 raise ReclaimedError("you cannot re-claim a nameplate that your side previously released")
             # since that might cause a new mailbox to be allocated
-        db.commit()
+        # no commit here: the claim and the mailbox side added by
+        # open_mailbox() are committed together (there), so that a crash
+        # cannot leave this side claimed on the nameplate but absent from
+        # the mailbox, where a later side would take its place
 
         self.open_mailbox(mailbox_id, side, when) # may raise CrowdedError
         rows = db.execute("SELECT * FROM `nameplate_sides`"
